@@ -803,3 +803,101 @@ mut('c18-swallow-timeout', 'C18', ['C18.4'], S,
 mut('c18-ignore-timeout', 'C18', ['C18.4'], S,
     "                return await asyncio.wait_for(future, timeout=timeout)\n", "                return await asyncio.wait_for(future, timeout=None)\n",
     'timeout ignored')
+
+# ================================================================================================ C19
+mut('c19-range-retries', 'C19', ['C19.1'], H,
+    "    for attempt in range(retries + 1):", "    for attempt in range(retries):",
+    'one attempt too few')
+mut('c19-call-outside-timeout', 'C19', ['C19.1'], H,
+    "            async with asyncio.timeout(timeout):\n                return await func(*args, **kwargs)  # type: ignore[reportCallIssue]",
+    "            return await func(*args, **kwargs)  # type: ignore[reportCallIssue]",
+    'attempts not cut off')
+mut('c19-return-none-after-loop', 'C19', ['C19.2'], H,
+    "    # This should never be reached, but satisfies type checker\n    raise RuntimeError('Unexpected state in retry logic')",
+    "    # This should never be reached, but satisfies type checker\n    return None  # type: ignore",
+    'returns None after the loop')
+mut('c19-except-baseexception', 'C19', ['C19.3'], H,
+    "        except Exception as e:\n            # Check if we should retry this exception", "        except BaseException as e:\n            # Check if we should retry this exception",
+    'cancellation is retried')
+mut('c19-except-valueerror', 'C19', ['C19.3'], H,
+    "        except Exception as e:\n            # Check if we should retry this exception", "        except (ValueError, RuntimeError) as e:\n            # Check if we should retry this exception",
+    'attempt timeouts are not retried')
+mut('c19-wrapper-swallows-cancel', 'C19', ['C19.3'], H,
+    "            try:\n                return await _execute_with_retries(\n                    func, args, kwargs, retries, timeout, wait, backoff_factor, retry_on, start_time, sem_start, semaphore_limit\n                )\n            finally:",
+    "            try:\n                return await _execute_with_retries(\n                    func, args, kwargs, retries, timeout, wait, backoff_factor, retry_on, start_time, sem_start, semaphore_limit\n                )\n            except asyncio.CancelledError:\n                return None  # type: ignore\n            finally:",
+    'wrapper swallows cancellation')
+mut('c19-filter-after-sleep', 'C19', ['C19.4'], H,
+    "            if retry_on is not None and not isinstance(e, retry_on):\n                raise\n\n            if attempt < retries:",
+    "            if attempt < retries:",
+    'retry_on filter removed')
+mut('c19-filter-inverted', 'C19', ['C19.4'], H,
+    "            if retry_on is not None and not isinstance(e, retry_on):\n                raise\n", "            if retry_on is not None and isinstance(e, retry_on):\n                raise\n",
+    'filter inverted')
+mut('c19-backoff-plus-one', 'C19', ['C19.5'], H,
+    "                current_wait = wait * (backoff_factor**attempt)", "                current_wait = wait * (backoff_factor ** (attempt + 1))",
+    'backoff exponent off by one')
+mut('c19-backoff-linear', 'C19', ['C19.5'], H,
+    "                current_wait = wait * (backoff_factor**attempt)", "                current_wait = wait * backoff_factor * attempt",
+    'linear instead of exponential backoff')
+mut('c19-sleep-always', 'C19', ['C19.5'], H,
+    "            if attempt < retries:\n                # Calculate wait time with backoff", "            if attempt <= retries:\n                # Calculate wait time with backoff",
+    'waits after the last attempt too (and never re-raises)')
+mut('c19-last-error-wrapped', 'C19', ['C19.6'], H,
+    "                    f'{sem_str}Final error: {type(e).__name__}: {e}'\n                )\n                raise\n",
+    "                    f'{sem_str}Final error: {type(e).__name__}: {e}'\n                )\n                raise RuntimeError(f'{func.__name__} failed') from e\n",
+    'last exception wrapped')
+mut('c19-last-error-swallowed', 'C19', ['C19.6', 'C19.2'], H,
+    "                    f'{sem_str}Final error: {type(e).__name__}: {e}'\n                )\n                raise\n",
+    "                    f'{sem_str}Final error: {type(e).__name__}: {e}'\n                )\n",
+    'last exception swallowed')
+
+# ================================================================================================ C20
+mut('c20-release-outside-finally', 'C20', ['C20.1'], H,
+    "            finally:\n                # Clean up: decrement active operations and release semaphore\n                _track_active_operations(increment=False)\n\n                if semaphore_acquired and semaphore:",
+    "            except Exception:\n                raise\n            else:\n                # Clean up: decrement active operations and release semaphore\n                _track_active_operations(increment=False)\n\n                if semaphore_acquired and semaphore:",
+    'slot released only on success')
+mut('c20-release-when-not-acquired', 'C20', ['C20.1'], H,
+    "                if semaphore_acquired and semaphore:\n                    try:", "                if semaphore:\n                    try:",
+    'released although the lax acquisition timed out')
+mut('c20-await-between-acquire-and-try', 'C20', ['C20.1'], H,
+    "            # Track active operations and check system overload\n            _track_active_operations(increment=True)\n",
+    "            await asyncio.sleep(0)\n            # Track active operations and check system overload\n            _track_active_operations(increment=True)\n",
+    'cancellation between acquire and try leaks the slot')
+mut('c20-double-release', 'C20', ['C20.1'], H,
+    "                        elif semaphore:\n                            semaphore.release()\n",
+    "                        elif semaphore:\n                            semaphore.release()\n                        if retries == 0 and semaphore_scope != 'multiprocess':\n                            semaphore.release()\n",
+    'released twice when retries == 0')
+mut('c20-release-skipped-for-scope', 'C20', ['C20.1'], H,
+    "                        elif semaphore:\n                            semaphore.release()\n", "                        elif semaphore and semaphore_scope == 'global':\n                            semaphore.release()\n",
+    'class / self scoped slots never released')
+mut('c20-true-without-acquire', 'C20', ['C20.2'], H,
+    "        async with asyncio.timeout(sem_timeout):\n            await semaphore.acquire()\n            return True",
+    "        if semaphore_limit > 64:\n            return True\n        async with asyncio.timeout(sem_timeout):\n            await semaphore.acquire()\n            return True",
+    'reports acquired without acquiring')
+mut('c20-lax-raises', 'C20', ['C20.2'], H,
+    "        if not semaphore_lax:\n            raise TimeoutError(\n                f'Failed to acquire semaphore", "        if semaphore_lax:\n            raise TimeoutError(\n                f'Failed to acquire semaphore",
+    'lax / non-lax behaviour swapped')
+mut('c20-nonlax-returns-false', 'C20', ['C20.2'], H,
+    "        if not semaphore_lax:\n            raise TimeoutError(\n                f'Failed to acquire semaphore \"{sem_key}\" within {sem_timeout}s '\n                f'(limit={semaphore_limit}, timeout={timeout}s per operation)'\n            )\n        logger.warning(\n            f'Failed to acquire semaphore \"{sem_key}\" after {sem_wait_time:.1f}s, proceeding without concurrency limit'\n        )\n        return False",
+    "        logger.warning(\n            f'Failed to acquire semaphore \"{sem_key}\" after {sem_wait_time:.1f}s, proceeding without concurrency limit'\n        )\n        return False",
+    'non-lax timeout lets the function run')
+mut('c20-key-ignores-scope', 'C20', ['C20.3'], H,
+    "        return f'{class_name}.{base_name}'", "        return base_name",
+    'class scope shares the global key')
+mut('c20-self-key-by-class', 'C20', ['C20.3'], H,
+    "        instance_id = id(args[0])\n", "        instance_id = id(type(args[0]))\n",
+    'self scope keyed by the class: instances block each other')
+mut('c20-constant-limit', 'C20', ['C20.4'], H,
+    "                GLOBAL_RETRY_SEMAPHORES[sem_key] = asyncio.Semaphore(semaphore_limit)", "                GLOBAL_RETRY_SEMAPHORES[sem_key] = asyncio.Semaphore(10)",
+    'limit is a constant')
+mut('c20-always-new-semaphore', 'C20', ['C20.4'], H,
+    "            if sem_key not in GLOBAL_RETRY_SEMAPHORES or GLOBAL_RETRY_SEMAPHORE_LOOPS.get(sem_key) is not current_loop:\n",
+    "            if True:\n",
+    'a fresh semaphore per call: no bound')
+mut('c20-revert-f13', 'C20', ['C20.5'], H,
+    "            if sem_key not in GLOBAL_RETRY_SEMAPHORES or GLOBAL_RETRY_SEMAPHORE_LOOPS.get(sem_key) is not current_loop:\n",
+    "            if sem_key not in GLOBAL_RETRY_SEMAPHORES:\n",
+    'loop check dropped in the main branch (but still present in the fallback branch)')
+mut('c20-lock-no-loop-check', 'C20', ['C20.5'], S,
+    "        if self._semaphore is None or self._loop != current_loop:", "        if self._semaphore is None:",
+    'global lock semaphore bound to the first loop')
